@@ -1,21 +1,25 @@
 pub mod c01;
+pub mod c02;
 pub mod c03;
 pub mod c04;
 pub mod c05;
+pub mod c09;
 pub mod c11;
 
 use crate::engine::Property;
 
 pub fn all_ids() -> Vec<&'static str> {
-    vec!["C01", "C03", "C04", "C05", "C11"]
+    vec!["C01", "C02", "C03", "C04", "C05", "C09", "C11"]
 }
 
 pub fn get(id: &str) -> Option<Property> {
     match id {
         "C01" => Some(c01::property()),
+        "C02" => Some(c02::property()),
         "C03" => Some(c03::property()),
         "C04" => Some(c04::property()),
         "C05" => Some(c05::property()),
+        "C09" => Some(c09::property()),
         "C11" => Some(c11::property()),
         _ => None,
     }
